@@ -870,6 +870,17 @@ impl Engine {
             if sent.len() != 1 || sent[0].amount != sum || sent[0].receiver != target {
                 self.v("C07", "recover_resends_exact_sum", format!("forced recovery of distinct {:?} emitted {:?}", distinct.iter().map(|p| (p.seq, p.amount)).collect::<Vec<_>>(), sent.iter().map(|p| (p.amount, p.receiver.clone())).collect::<Vec<_>>()));
             }
+            // mechanical clause: every selected record is gone from the table afterwards
+            let left: Vec<u64> = self
+                .q(json!({"ibc_queue": {}}))
+                .and_then(|v| v["ibc_queue"].as_array().map(|a| a.iter().map(|p| p["sequence"].as_u64().unwrap_or(0)).collect()))
+                .unwrap_or_default();
+            let new_seq: Vec<u64> = sent.iter().map(|p| p.seq).collect();
+            for p in &distinct {
+                if left.contains(&p.seq) && !new_seq.contains(&p.seq) {
+                    self.v("C07", "recover_removes_what_it_resends", format!("packet seq {} was re-sent by the forced recovery but is still recorded", p.seq));
+                }
+            }
             for p in &distinct {
                 self.m.recovered.insert(p.id);
             }
